@@ -48,6 +48,7 @@ impl<'a, K: Eq, V, S> Entry<'a, K, V, S> {
     }
     pub fn or_default(self) -> &'a mut V where V: Default { self.or_insert_with(V::default) }
 }
+impl<K: Eq, V, S, Q: ?Sized + Eq> std::ops::Index<&Q> for HashMap<K, V, S> where K: Borrow<Q> { type Output = V; fn index(&self, k: &Q) -> &V { self.get(k).expect("no entry found for key") } }
 pub struct IntoIter<K, V> { slots: [Option<(K, V)>; CAP], pos: usize }
 impl<K, V> Iterator for IntoIter<K, V> {
     type Item = (K, V);
